@@ -13,6 +13,8 @@ from __future__ import annotations
 import ast
 
 from ..lib import *
+from ..twin import check_pairs
+from ._twins import pairs_for, all_pairs
 from . import _tables as T
 
 EXPLANATION = (
@@ -94,6 +96,10 @@ def check(ctx):
     em_ = arr.own_methods.get("_elemwise")
     ok = em_ is not None and "elemwise" in unparse(em_)
     ctx.ob("DELEG.array-elemwise", em_ or arr.node, "Array._elemwise is elemwise", ok, nontrivial=False)
+    # ---------------- twin agreement with the array-expression engine's copies (see sa/twin.py)
+    n_tw = check_pairs(ctx, pairs_for("C19"))
+    ctx.count("twin_pairs", n_tw)
+    ctx.floor("twin_pairs", 5)
 
 
 VARIANTS = [
